@@ -239,6 +239,12 @@ func c20Oracle(ctx context.Context, b, bm *board.Board, g *ref.Game, pts *sargon
 	return "", ""
 }
 
+// plausibleCount is used for the statistics only: a panic is c20Oracle's business.
+func plausibleCount(b *board.Board) (n int) {
+	defer func() { _ = recover() }()
+	return len(bernstein.FindPlausibleMoves(b))
+}
+
 func privateMoves(book any) map[string][]board.Move {
 	v := reflect.ValueOf(book)
 	if v.Kind() == reflect.Interface || v.Kind() == reflect.Ptr {
@@ -442,7 +448,7 @@ func checkC20(c *harness.Check) {
 				if cls, msg := c20Oracle(ctx, b, bm, g, pts); msg != "" {
 					c.Violation(cc.sig("C20/"+cls, j.fen+" "+strings.Join(path, " ")), msg+" at "+j.fen+" moves "+strings.Join(path, " "), "C20/node", map[string]any{"FEN": j.fen, "Moves": append([]string(nil), path...)})
 				}
-				c.Distinct(fmt.Sprint(j.fen[:10], len(bernstein.FindPlausibleMoves(b)) > 7, g.Cur().InCheck(g.Cur().White), len(g.Cur().Legal()) == 0))
+				c.Distinct(fmt.Sprint(j.fen[:10], plausibleCount(b) > 7, g.Cur().InCheck(g.Cur().White), len(g.Cur().Legal()) == 0))
 			}
 			w.OnPop = func(b *board.Board, g *ref.Game, path []string) {
 				if bm != nil && len(mpath) == len(path)+1 {
